@@ -53,6 +53,8 @@ def check(run, project):
     l7(run, mod, fns, project)
     from .shared import unbound_locals
     unbound_locals(run, project, "L6", (MAIN, "tpmstream.common.canonical"), what="a traceback instead of the command's output")
+    from .shared import undefined_names
+    undefined_names(run, project, "L6", (MAIN, "tpmstream.common.canonical"), what="a traceback instead of the command's output")
     run.floor("L1", 6)
     run.floor("L2", 5)
 
